@@ -349,6 +349,7 @@ int main(int argc, char** argv) {
         for (size_t i = 0; i < 64; i++) tasks.push_back({5, 0, i, i + 1});                                         // raw length 3 over a 64-symbol alphabet
         for (int k = 0; k < 5; k++) for (size_t d : {(size_t)10, (size_t)100, (size_t)1000, (size_t)10000, (size_t)100000, (size_t)(T ? 1000000 : 200000)}) tasks.push_back({6, (size_t)k, d, 0}); // raw bombs
         for (size_t k = 0; k <= 3; k++) tasks.push_back({7, 0, k, 0});                                             // k*65535-byte files ending inside a string
+        for (size_t k = 0; k < 4; k++) tasks.push_back({8, 0, k, 0});                                              // length / count fields close to 2^64, 2^63, 2^32 in skipped and read positions
         static const unsigned char A64[] = {0x00, 0x01, 0x17, 0x18, 0x19, 0x1a, 0x1b, 0x1c, 0x1f, 0x20, 0x37, 0x38, 0x3b, 0x3f, 0x40, 0x41, 0x57, 0x58, 0x59, 0x5a, 0x5b, 0x5f, 0x60, 0x61, 0x78, 0x7b, 0x7f, 0x80, 0x81, 0x82, 0x98, 0x9b, 0x9f,
                                             0xa0, 0xa1, 0xb8, 0xbb, 0xbf, 0xc0, 0xc1, 0xd8, 0xdb, 0xdf, 0xe0, 0xf4, 0xf5, 0xf6, 0xf7, 0xf8, 0xf9, 0xfa, 0xfb, 0xfc, 0xff, 0x02, 0x03, 0x05, 0x0a, 0x2a, 0x43, 0x63, 0x83, 0xa2, 0xc2};
         static const uint64_t BV[] = {0, 1, 23, 24, 255, 256, 65535, 65536, 0xffffffffULL, 0x100000000ULL, 0x7fffffffffffffffULL, 0x8000000000000000ULL, 0xffffffffffffffffULL};
@@ -411,6 +412,23 @@ int main(int argc, char** argv) {
             case 5: for (unsigned char y : A64) for (unsigned char z : A64) { std::string s; s.push_back((char)A64[t.lo]); s.push_back((char)y); s.push_back((char)z); run_one("raw3", s, R); if (T) for (unsigned char w : {(unsigned char)0x00, (unsigned char)0xff, (unsigned char)0x41, (unsigned char)0x9f}) run_one("raw4", s + std::string(1, (char)w), R); } break;
             case 6: run_one("bomb" + std::to_string(t.seed) + "-d" + std::to_string(t.lo), bomb((int)t.seed, t.lo), R); break;
             case 7: { std::string f = seeds::exact((t.lo ? t.lo : 1) * W + 50); run_one("exactk" + std::to_string(t.lo), f.substr(0, t.lo * W), R); break; }
+            case 8: {
+                static const uint64_t LV[] = {~0ULL, ~0ULL - 1, ~0ULL - 7, ~0ULL - 8, ~0ULL - 9, ~0ULL - 15, ~0ULL - 16, ~0ULL - 65534, ~0ULL - 65535, ~0ULL - 0xffffffffULL, (1ULL << 63) + 1, 1ULL << 63, (1ULL << 63) - 1, 1ULL << 62, 1ULL << 48, 1ULL << 32, 1ULL << 31};
+                int major = 2 + (int)t.lo;   // byte string, text string, array, map
+                for (uint64_t L : LV) {
+                    std::string item; put_head(item, major, 27, L); item += std::string(24, '\x01');
+                    std::string nm = "len-m" + std::to_string(major) + "-" + std::to_string(L);
+                    run_one(nm + "-raw", item, R);
+                    run_one(nm + "-in-indef-array", std::string("\x9f") + item + "\xff", R);
+                    run_one(nm + "-in-array", std::string("\x82\x00") + item, R);
+                    run_one(nm + "-tagged", std::string("\xc1") + item, R);
+                    // as the value of an unknown key in each map of the small seed (reached through skip_item)
+                    const std::string& sb = seeds[0].second; Node root = parse_exact(sb); size_t idx = 0, nmaps = 0; std::vector<size_t> mapidx; visit((const Node&)root, [&](const Node& x) { if (x.major == 5) mapidx.push_back(idx); idx++; });
+                    for (size_t mi = 0; mi < mapidx.size(); mi += 3) { Node r2 = root; Node* np = nullptr; size_t c = 0; visit(r2, [&](Node& x) { if (c++ == mapidx[mi]) np = &x; });
+                        std::string marker = "MARKER-FOR-SPLICE!"; np->kids.insert(np->kids.begin(), {mk_uint(222), mk_tstr(marker)}); std::string enc = encode(r2); std::string mk = encode(mk_tstr(marker)); size_t p = enc.find(mk); if (p == std::string::npos) continue;
+                        for (int wrap = 0; wrap < 2; wrap++) { std::string e2 = enc; e2.replace(p, mk.size(), wrap ? std::string("\x9f") + item + "\xff" : item); run_one(nm + "-unknown-key-map" + std::to_string(mi) + (wrap ? "-wrapped" : ""), e2, R); } (void)nmaps; }
+                }
+                break; }
             }
             if (ti % 211 == 3) R.sample("task family " + std::to_string(t.fam) + " seed " + std::to_string(t.seed) + " range " + std::to_string(t.lo) + ".." + std::to_string(t.hi));
         }, [&](uint64_t, const std::string& d, Result& R) {
